@@ -869,7 +869,9 @@ def _paste(it):
             return "unknown", seq, f"the list is passed through the filter `{f[0]}`"
     if it[7] is not None:
         return "wrong", seq, f"entries are pasted only when `{J.show(it[7])}` holds"
-    if any(x[0] not in ("out", "text", "set") for x in it[3]):
+    # (the brackets of an expanded macro call -- `{{ paste_one(assign) }}` -- print nothing: the macro's body stands in the loop body
+    # with its parameters replaced by the arguments, J.propagate_sets)
+    if any(x[0] not in ("out", "text", "set") and not (x[0] == "other" and isinstance(x[1], str) and x[1].startswith(("macro-begin:", "macro-end:"))) for x in it[3]):
         return "unknown", seq, "the loop body holds control items"
     outs = [x for x in it[3] if x[0] == "out" and not (x[1][0] == "const" and not str(x[1][1]).strip())]
     if len(outs) != 1:
